@@ -67,6 +67,7 @@ func runC16(p *core.Prog, r *core.Result) {
 		"R16.6 when the recorded route is cut short and the search restarts, each operand is trimmed by its own consumption counter (the counter incremented exactly where elements of that operand are recorded)",
 		"R16.3 mapping diffs: delete exactly on keys of old missing in new, replace exactly on a non-empty recursive diff of the two values under one key, add exactly on keys of new missing in old",
 		"R16.4 the rebuild-reason table lists exactly the keys under which the unpickler stores environment parts",
+		"R16.7 merging an adjacent delete/add pair into a replace: the two arguments of the element-wise diff are (part of) the deleted run and (part of) the added run in that order, and the surplus that is kept as an edit of its own carries the kind of the run it was cut from (left-over deleted elements stay a delete, left-over added elements stay an add)",
 		"R16.5 the diff is nil exactly on the equal edge; every other successful return is a non-nil node",
 	}
 	r.NotDecided = []string{"that kept+deleted / kept+added elements reconstruct the two sequences (the O(NP) search and snake recording are behavioural)", "merging of delete+add into replace for all length combinations"}
@@ -143,6 +144,9 @@ func runC16(p *core.Prog, r *core.Result) {
 
 	// ---- R16.4
 	checkReasonTable(p, r)
+
+	// ---- R16.7
+	checkComposeMerge(p, r)
 
 	// ---- R16.5
 	nilOnEq := 0
@@ -946,4 +950,233 @@ func checkReasonTable(p *core.Prog, r *core.Result) {
 	r.Check(len(missing) == 0, "R16.4", "dawn#reason-table-covers-env-keys", p.Pos(tablePos), fmt.Sprintf("all %d environment keys stored by the unpickler are in the reason table", len(keys)), fmt.Sprintf("environment keys %q are stored by the unpickler but absent from the reason table: a change confined to them is reported with an empty or wrong reason", missing))
 	r.Check(len(extra) == 0, "R16.4", "dawn#reason-table-no-stale-keys", p.Pos(tablePos), "every reason names a key the unpickler stores", fmt.Sprintf("reason table entries %q name no environment key: those reasons can never be reported", extra))
 	r.Floor("R16.4", len(keys), 4, "environment keys stored by the unpickler")
+}
+
+// checkComposeMerge implements R16.7 on (*differ).compose.
+func checkComposeMerge(p *core.Prog, r *core.Result) {
+	compose := need(p, r, "R16.7", "diff", "differ", "compose")
+	if compose == nil {
+		return
+	}
+	// internal kind constants -> exported kind names
+	internal := map[int64]string{}
+	if tp := p.TPkg("diff"); tp != nil {
+		for _, n := range []string{"Delete", "Common", "Add"} {
+			if c, ok := tp.Types.Scope().Lookup("editKind" + n).(*types.Const); ok {
+				v, _ := constant.Int64Val(c.Val())
+				internal[v] = "EditKind" + n
+			}
+		}
+	}
+	globalName := func(v ssa.Value) string {
+		if u, ok := v.(*ssa.UnOp); ok && u.Op == token.MUL {
+			if g, ok := u.X.(*ssa.Global); ok {
+				return g.Name()
+			}
+		}
+		return ""
+	}
+	kindFieldOf := func(v ssa.Value) ssa.Value { // v = load of &E.kind -> E
+		u, ok := v.(*ssa.UnOp)
+		if !ok || u.Op != token.MUL {
+			return nil
+		}
+		fa, ok := u.X.(*ssa.FieldAddr)
+		if !ok {
+			return nil
+		}
+		if _, f := core.FieldOf(fa); f != "kind" {
+			return nil
+		}
+		return fa.X
+	}
+	// the internal edit a freshly built *Edit takes its kind from: kind: editKinds[int(e.kind)]
+	internalSrc := func(E ssa.Value) ssa.Value {
+		var src ssa.Value
+		core.Instrs(compose, func(in ssa.Instruction) {
+			st, ok := in.(*ssa.Store)
+			if !ok {
+				return
+			}
+			fa, ok := st.Addr.(*ssa.FieldAddr)
+			if !ok || fa.X != E {
+				return
+			}
+			if _, f := core.FieldOf(fa); f != "kind" {
+				return
+			}
+			for x := range core.BackwardSlice(st.Val, core.SliceOpts{}) {
+				if e := kindFieldOf(x); e != nil && e != E {
+					src = e
+				}
+			}
+		})
+		return src
+	}
+	// kindOf: the kind E is known to have under the given facts
+	kindOf := func(E ssa.Value, facts []core.FactSet) string {
+		src := internalSrc(E)
+		for _, fs := range facts {
+			for f := range fs {
+				bo, ok := f.Cond.(*ssa.BinOp)
+				if !ok || !((bo.Op == token.EQL && f.Val) || (bo.Op == token.NEQ && !f.Val)) {
+					continue
+				}
+				for _, pr := range [][2]ssa.Value{{bo.X, bo.Y}, {bo.Y, bo.X}} {
+					e := kindFieldOf(pr[0])
+					if e == nil {
+						continue
+					}
+					if e == E {
+						if g := globalName(pr[1]); g != "" {
+							return g
+						}
+					}
+					if src != nil && e == src {
+						if k, ok := core.ConstInt(pr[1]); ok {
+							return internal[k]
+						}
+					}
+				}
+			}
+		}
+		return ""
+	}
+	// sourceEdit: v is (a phi edge of) the elements of an edit: load of &E.Sliceable
+	sourceEdit := func(v ssa.Value) ssa.Value {
+		u, ok := core.Unwrap(v).(*ssa.UnOp)
+		if !ok || u.Op != token.MUL {
+			return nil
+		}
+		fa, ok := u.X.(*ssa.FieldAddr)
+		if !ok {
+			return nil
+		}
+		if _, f := core.FieldOf(fa); f != "Sliceable" {
+			return nil
+		}
+		return fa.X
+	}
+	// alternatives: the values v can be, each with the facts of the path that selects it
+	type alt struct {
+		v     ssa.Value
+		facts core.FactSet
+	}
+	alts := func(v ssa.Value) []alt {
+		if ph, ok := v.(*ssa.Phi); ok {
+			efs := p.PhiEdgeFacts(ph)
+			var out []alt
+			for i, e := range ph.Edges {
+				out = append(out, alt{e, efs[i]})
+			}
+			return out
+		}
+		return []alt{{v, nil}}
+	}
+	isSliceCall := func(v ssa.Value) (*ssa.Call, bool) {
+		c, ok := v.(*ssa.Call)
+		if !ok {
+			return nil, false
+		}
+		if h := core.Callee(c); h != nil && h.Pkg == compose.Pkg && h.Name() == "slice" && len(c.Call.Args) == 3 {
+			return c, true
+		}
+		return nil, false
+	}
+	nSurplus, nRepl := 0, 0
+	core.Instrs(compose, func(in ssa.Instruction) {
+		switch x := in.(type) {
+		case *ssa.Store:
+			fa, ok := x.Addr.(*ssa.FieldAddr)
+			if !ok {
+				return
+			}
+			if _, f := core.FieldOf(fa); f != "Sliceable" {
+				return
+			}
+			sc, ok := isSliceCall(x.Val)
+			if !ok {
+				return
+			}
+			nSurplus++
+			construct := fmt.Sprintf("diff.(*differ).compose#surplus-%d", nSurplus)
+			target := fa.X
+			// an explicit kind given to the target in the same block
+			explicit := ""
+			for _, bi := range x.Block().Instrs {
+				if st, ok := bi.(*ssa.Store); ok {
+					if f2, ok := st.Addr.(*ssa.FieldAddr); ok && f2.X == target {
+						if _, f := core.FieldOf(f2); f == "kind" {
+							explicit = globalName(st.Val)
+						}
+					}
+				}
+			}
+			okAll, detail := true, ""
+			for _, a := range alts(sc.Call.Args[0]) {
+				facts := []core.FactSet{p.FactsAt(x)}
+				if a.facts != nil {
+					facts = append(facts, a.facts)
+				}
+				src := sourceEdit(a.v)
+				if src == nil {
+					okAll, detail = false, "the surplus is not cut from the elements of an edit"
+					continue
+				}
+				from := kindOf(src, facts)
+				final := explicit
+				if final == "" {
+					final = kindOf(target, facts)
+				}
+				if from == "" || final == "" {
+					okAll, detail = false, "the kind of the run the surplus is cut from, or of the edit that keeps it, is not determined on this path"
+					continue
+				}
+				if from != final {
+					okAll, detail = false, fmt.Sprintf("elements cut from a run of kind %s are kept in an edit of kind %s", from, final)
+				}
+			}
+			r.Check(okAll, "R16.7", construct, p.InstrPos(x), "the surplus of the longer run keeps the kind of the run it was cut from", "when a delete/add pair of different lengths is merged into a replace, "+detail+": the left-over elements are reported on the wrong side, so the old value rebuilt from the edits gains elements it never had and the new value loses them")
+		case *ssa.Call:
+			h := core.Callee(x)
+			if h == nil || h.Pkg != compose.Pkg || h.Name() != "diffReplacements" || len(x.Call.Args) < 2 {
+				return
+			}
+			nRepl++
+			construct := fmt.Sprintf("diff.(*differ).compose#replace-%d", nRepl)
+			sideOf := func(v ssa.Value) []string {
+				if sc, ok := isSliceCall(v); ok {
+					v = sc.Call.Args[0]
+				}
+				var out []string
+				for _, a := range alts(v) {
+					facts := []core.FactSet{p.FactsAt(x)}
+					if a.facts != nil {
+						facts = append(facts, a.facts)
+					}
+					if src := sourceEdit(a.v); src != nil {
+						out = append(out, kindOf(src, facts))
+					} else {
+						out = append(out, "")
+					}
+				}
+				return out
+			}
+			okOrder := true
+			olds, news := sideOf(x.Call.Args[0]), sideOf(x.Call.Args[1])
+			for _, k := range olds {
+				if k != "EditKindDelete" {
+					okOrder = false
+				}
+			}
+			for _, k := range news {
+				if k != "EditKindAdd" {
+					okOrder = false
+				}
+			}
+			r.Check(okOrder && len(olds) > 0 && len(news) > 0, "R16.7", construct, p.InstrPos(x), "the element-wise diff of a replace takes the deleted run as old and the added run as new", "the element-wise diff of a merged delete/add pair does not take the deleted run as its old side and the added run as its new side: the replace reports the two values swapped")
+		}
+	})
+	r.Floor("R16.7", nSurplus, 2, "surplus edits kept when merging a delete/add pair")
+	r.Floor("R16.7", nRepl, 2, "element-wise diffs of merged pairs")
 }
